@@ -2075,3 +2075,26 @@ def _is_ok_and(E, ci, o, f):
 @model('Result::is_err_and')
 def _is_err_and(E, ci, o, f):
     return o.variant == 1 and E.branch(E.call_value(f, [o.fields[0]]))
+
+
+@model('Cell::new', 'RefCell::new')
+def _cell_new(E, ci, v):
+    return Agg('Cell', 0, [v])
+
+
+@model('Cell::get')
+def _cell_get(E, ci, c):
+    return deref(c).fields[0]
+
+
+@model('Cell::set')
+def _cell_set(E, ci, c, v):
+    deref(c).fields[0] = v
+    return UNIT
+
+
+@model('Cell::replace')
+def _cell_replace(E, ci, c, v):
+    old = deref(c).fields[0]
+    deref(c).fields[0] = v
+    return old
